@@ -1373,13 +1373,24 @@ class VM:
             sep = "," if not args or args[0] is UNDEFINED else to_string(args[0])
             return join_elements(sep)
 
+        def visited_elements(missing=False):
+            """(index, element) pairs for a method that calls back once per
+            element: the indices the array has at the start. The callback may
+            append (new elements are not visited) and remove: an index that is
+            gone is skipped, or visited as undefined (find, findIndex)."""
+            for i in range(len(arr._elements)):
+                if i < len(arr._elements):
+                    yield i, arr._elements[i]
+                elif missing:
+                    yield i, UNDEFINED
+
         def map_fn(*args):
             callback = args[0] if args else None
             if not callback:
                 return JSArray()
             result = JSArray()
             result._elements = []
-            for i, elem in enumerate(arr._elements):
+            for i, elem in visited_elements():
                 val = vm._call_callback(callback, [elem, i, arr])
                 result._elements.append(val)
             return result
@@ -1390,7 +1401,7 @@ class VM:
                 return JSArray()
             result = JSArray()
             result._elements = []
-            for i, elem in enumerate(arr._elements):
+            for i, elem in visited_elements():
                 val = vm._call_callback(callback, [elem, i, arr])
                 if to_boolean(val):
                     result._elements.append(elem)
@@ -1470,7 +1481,7 @@ class VM:
             callback = args[0] if args else None
             if not callback:
                 return UNDEFINED
-            for i, elem in enumerate(arr._elements):
+            for i, elem in visited_elements():
                 vm._call_callback(callback, [elem, i, arr])
             return UNDEFINED
 
@@ -1500,7 +1511,7 @@ class VM:
             callback = args[0] if args else None
             if not callback:
                 return UNDEFINED
-            for i, elem in enumerate(arr._elements):
+            for i, elem in visited_elements(missing=True):
                 val = vm._call_callback(callback, [elem, i, arr])
                 if to_boolean(val):
                     return elem
@@ -1510,7 +1521,7 @@ class VM:
             callback = args[0] if args else None
             if not callback:
                 return -1
-            for i, elem in enumerate(arr._elements):
+            for i, elem in visited_elements(missing=True):
                 val = vm._call_callback(callback, [elem, i, arr])
                 if to_boolean(val):
                     return i
@@ -1520,7 +1531,7 @@ class VM:
             callback = args[0] if args else None
             if not callback:
                 return False
-            for i, elem in enumerate(arr._elements):
+            for i, elem in visited_elements():
                 val = vm._call_callback(callback, [elem, i, arr])
                 if to_boolean(val):
                     return True
@@ -1530,7 +1541,7 @@ class VM:
             callback = args[0] if args else None
             if not callback:
                 return True
-            for i, elem in enumerate(arr._elements):
+            for i, elem in visited_elements():
                 val = vm._call_callback(callback, [elem, i, arr])
                 if not to_boolean(val):
                     return False
